@@ -75,6 +75,9 @@ def make_config(seed, tier="quick", variant=None):
         start_offset=round(r.random(), 3),
         file_journal=False,
     )
+    # buggify: a transport close that takes a while (wait_closed() completes late)
+    cfg["p_slow_close"] = r.choice([0.0, 0.0, 0.0, 0.5])
+    cfg["slow_close_s"] = r.choice([0.3, 1.3, 2.6])
     cfg["settle_s"] = 6.5 * hb + 8.0
     cfg["settle_extra_s"] = 2.0 * hb + 2.0
     cfg["max_boundaries"] = 6000 if not thorough else 20000
